@@ -233,6 +233,28 @@ def constant_progs(theme="real"):
     return [e for e in out if e is not None and well_typed(e)]
 
 
+def nondistributive_progs():
+    """reductions over a binary op the reduction does NOT distribute over, with an operand that lacks the reduced
+    variable or is a free real variable (the reduction must not be pushed into the other operand)"""
+    out = []
+    a = _leaf("na", ("i",), (), "real")
+    b = _leaf("nb", ("i", "j"), (), "real")
+    c_ = _leaf("nc", ("j",), (), "real")
+    zv = var("zv", ("real", ()))
+    pairs = [("mul", "add"), ("mul", "sub"), ("add", "max"), ("add", "min"), ("max", "min"), ("min", "max"), ("mul", "max"), ("add", "sub"),
+             ("max", "sub"), ("add", "mul"), ("max", "add"), ("min", "add")]
+    for red, bin_ in pairs:
+        for lhs, rhs in ((a, zv), (zv, a), (b, zv), (a, c_), (c_, b), (b, _bin("add", c_, zv))):
+            e = _bin(bin_, lhs, rhs)
+            if e is None:
+                continue
+            out.append(reduce_(red, e, (("i", 2),)))
+            if "j" in type_of(e)[0]:
+                out.append(reduce_(red, e, (("i", 2), ("j", 3))))
+                out.append(reduce_("add", reduce_(red, e, (("i", 2),)), (("j", 3),)))
+    return [e for e in out if well_typed(e)]
+
+
 def independent_progs():
     f = leaf("fi", (("i", 2),), (), "real")
     x = var("xd", ("real", ()))
